@@ -133,7 +133,7 @@ theorem targets_schemaPart (spec : ColSpec) (D : Frame) :
 restricted to its schema-level constraints -/
 theorem schemaOnly_is_schema_part (S : Schema) (D : Frame) :
     frameErrors docScopes .schemaOnly S D = frameErrors docScopes .schemaAndData (Schema.schemaPart S) D := by
-  unfold frameErrors
+  unfold frameErrors coreCheckErrors
   have h1 : strictOrderedErrors (Schema.schemaPart S) D = strictOrderedErrors S D := by
     unfold strictOrderedErrors expandedNames Schema.schemaPart
     simp [List.map_map, Function.comp_def, targets_schemaPart]
@@ -172,12 +172,14 @@ theorem schemaOnly_is_schema_part (S : Schema) (D : Frame) :
         cases D.col? n with
         | none => rfl
         | some col => exact fieldErrors_schemaOnly .column _ _ _ _
-  rw [h1, h2, h3, h3']
-  congr 1
-  · congr 1
+  have h5 : (S.columns.map (fun c => columnErrors docScopes .schemaOnly c D)).flatten
+      = ((Schema.schemaPart S).columns.map (fun c => columnErrors docScopes .schemaAndData c D)).flatten := by
     simp only [Schema.schemaPart, List.map_map, Function.comp_def]
     congr 1
-  · simp only [Schema.schemaPart]
+  have h6 : indexPartErrors docScopes .schemaOnly S D
+      = indexPartErrors docScopes .schemaAndData (Schema.schemaPart S) D := by
+    unfold indexPartErrors
+    simp only [Schema.schemaPart]
     cases S.index with
     | none => rfl
     | some ix =>
@@ -188,6 +190,7 @@ theorem schemaOnly_is_schema_part (S : Schema) (D : Frame) :
         cases ls with
         | nil => simp only; rw [fieldErrors_schemaOnly]; rfl
         | cons _ _ => rfl
+  rw [h1, h2, h3, h3', h5, h6]
 
 def ColSpec.dataPart (s : ColSpec) : ColSpec := { s with nullable := true, dtype := none, required := false }
 
@@ -221,7 +224,7 @@ theorem dataOnly_is_data_part_partial (S : Schema) (D : Frame) (hK : ¬ K_C18_da
   unfold K_C18_dataOnlySchemaErrors at hK
   simp only [ne_eq, not_or, Decidable.not_not, not_exists, not_and] at hK
   obtain ⟨hso, hre⟩ := hK
-  unfold accepts frameErrors
+  unfold accepts frameErrors coreCheckErrors
   have h1 : strictOrderedErrors (Schema.dataPart S) D = [] := by
     simp [strictOrderedErrors, Schema.dataPart]
   have h2 : presenceErrors docScopes .dataOnly S D = [] := by
@@ -280,9 +283,9 @@ theorem dataOnly_is_data_part_partial (S : Schema) (D : Frame) (hK : ¬ K_C18_da
     apply List.map_congr_left
     intro c hc
     exact h4 c hc
-  have h6 : (match S.index with | some ix => indexErrors docScopes .dataOnly ix D | none => []).isEmpty
-      = (match (Schema.dataPart S).index with
-          | some ix => indexErrors docScopes .schemaAndData ix D | none => []).isEmpty := by
+  have h6 : (indexPartErrors docScopes .dataOnly S D).isEmpty
+      = (indexPartErrors docScopes .schemaAndData (Schema.dataPart S) D).isEmpty := by
+    unfold indexPartErrors
     simp only [Schema.dataPart]
     cases S.index with
     | none => rfl
